@@ -291,6 +291,7 @@ func purgeReplay(args []string) error {
 		time.Sleep(2 * time.Millisecond)
 		// ---- build the index
 		success := true
+		var idxTime time.Time // the index time reported by the last successful build
 		build := func(resume bool, crashAfter int, fault string) (err error) {
 			bstores, ctl := e.client()
 			if crashAfter >= 0 {
@@ -332,7 +333,10 @@ func purgeReplay(args []string) error {
 					err = fmt.Errorf("panic")
 				}
 			}()
-			_, err = core.PurgeBuildReverseIndex(bstores, opts...)
+			desc, err := core.PurgeBuildReverseIndex(bstores, opts...)
+			if err == nil && desc != nil {
+				idxTime = desc.IndexTime
+			}
 			return err
 		}
 		r.Steps++
@@ -419,7 +423,19 @@ func purgeReplay(args []string) error {
 				ustores, uctl = e.client()
 				uctl.FaultStore, uctl.FaultOp, uctl.FaultAt = "blob", "touch", 1
 			}
-			if err := fx.upload(ustores, b, gen[b]); err != nil {
+			// for every other scenario the blob store's clock reads a fraction of a millisecond after the index
+			// time while the uploads in between run (a store whose clock is behind the indexing client's, or an upload
+			// that began right at the index time): what they write or refresh is more recent than the index
+			if !idxTime.IsZero() && (i+int(*seed))%2 == 1 {
+				ticks := 0
+				e.w.Clock = func() time.Time {
+					ticks++
+					return idxTime.Add(400*time.Microsecond + time.Duration(ticks))
+				}
+			}
+			uerr := fx.upload(ustores, b, gen[b])
+			e.w.Clock = nil
+			if err := uerr; err != nil {
 				if c.TouchFault == "touch1" {
 					// reported: the operator uploads again
 					if err2 := fx.upload(stores, b, gen[b]); err2 != nil {
